@@ -1898,12 +1898,16 @@ class Process:
         return _psposix.wait_pid(self.pid, timeout, self._name)
 
     @wrap_exceptions
-    def create_time(self):
+    def create_time(self, monotonic=False):
         ctime = float(self._parse_stat_file()['create_time'])
         # According to documentation, starttime is in field 21 and the
         # unit is jiffies (clock ticks).
         # We first divide it for clock ticks and then add uptime returning
         # seconds since the epoch.
+        if monotonic:
+            # Seconds since boot: unlike the value below this is not
+            # affected by system clock updates (boot time changes).
+            return ctime / CLOCK_TICKS
         # Also use cached value if available.
         bt = BOOT_TIME or boot_time()
         return (ctime / CLOCK_TICKS) + bt
